@@ -21,8 +21,23 @@ def junk_lines(rng):
     for n in rng.sample([4095, 4096, 4097, 8191, 8192, 8193, 16383, 16384, 32767, 32768, 65533, 65534, 65535, 65536, 65537, 131071, 131072], 4) + [65535, 65536]:
         cand.append(bytes(rng.choice(b"ghijklmnopqrstuvwxyz #") for _ in range(n)))
         cand.append(bytes(rng.choice(b"ghijklmnopqrstuvwxyz #") for _ in range(n - 1)) + b"\r")
-    # a line with 14/28 (or 26/40) hex digits may be a frame by C02: such a line is not junk
-    return [j for j in cand if sum(1 for c in j if chr(c) in "0123456789abcdefABCDEF") not in (14, 26, 28, 40)]
+    # an extended squitter cut after 56 bits (14 digits whose format says "112 bits"), bare, framed and time-stamped; a long line
+    # whose format says "56 bits": right length for SOME frame, wrong for this one
+    for kind in ("tc11", "tc19.1", "df18", "df20", "df21"):
+        h = gen.rand_frame(rng, kind, 0x3C0000 + rng.randrange(1 << 10))
+        cand += [h[:14].encode(), ("*" + h[:14] + ";").encode(), ("@" + ts + h[:14] + ";").encode(), h[:14].lower().encode() + b"\r"]
+    for kind in ("df4", "df11", "df0"):
+        h = gen.rand_frame(rng, kind, 0x3C0000 + rng.randrange(1 << 10))
+        cand += [(h + h).encode(), ("*" + h + h + ";").encode()]
+    def may_be_frame(j):
+        # a line with 14/28 (or 26/40) hex digits whose format fits that length may be a frame by C02: such a line is not junk
+        d = "".join(chr(c) for c in j if chr(c) in "0123456789abcdefABCDEF")
+        if len(d) in (26, 40):
+            d = d[12:]
+        if len(d) not in (14, 28):
+            return False
+        return (int(d[:2], 16) >> 3 < 16) == (len(d) == 14)
+    return [j for j in cand if not may_be_frame(j)]
 
 class C13(PropBase):
     id = "C13"
